@@ -620,14 +620,24 @@ func (r *scanner) checkCompactRace(ctx context.Context, revision uint64, compact
 	if compact {
 		// compact operation, just try to set the compact revision
 		// if it's error, try next time
-		if val, err := r.store.Get(ctx, r.config.CompactKey); err == nil && len(val) == 8 && binary.BigEndian.Uint64(val) > revision {
+		val, err := r.store.Get(ctx, r.config.CompactKey)
+		if err == nil && len(val) == 8 && binary.BigEndian.Uint64(val) > revision {
 			// a later compaction has already been recorded: never lower the compact revision
 			return nil
+		}
+		if err != nil && err != storage.ErrKeyNotFound {
+			return err
 		}
 		bs := make([]byte, 8)
 		binary.BigEndian.PutUint64(bs, revision)
 		batch := r.store.BeginBatchWrite()
-		batch.Put(r.config.CompactKey, bs, 0)
+		// conditioned on what was just read: an overlapping compaction at a higher revision that
+		// recorded itself in between must not be overwritten (this one is then skipped)
+		if err == nil {
+			batch.CAS(r.config.CompactKey, bs, val, 0)
+		} else {
+			batch.PutIfNotExist(r.config.CompactKey, bs, 0)
+		}
 		return batch.Commit(ctx)
 	}
 
